@@ -592,6 +592,20 @@ func Input(l *InputSharedVars, g *GlobalVarsMain, hPath *HFilePath, driConfig *C
 				// ! -- Setzen des Simulationsbeginns für Zeitschleife
 				// set simulation start for time loop
 				g.BEGINN = g.ERNTE[0]
+				// irrigation events dated before the start: BEGINN was not yet known when the irrigation file was read
+				if !g.AUTOIRRI {
+					kept := 0
+					for i := 0; i < l.ANZBREG; i++ {
+						if g.ZTBR[i] >= g.BEGINN {
+							g.ZTBR[kept], g.BREG[kept], g.BRKZ[kept] = g.ZTBR[i], g.BREG[i], g.BRKZ[i]
+							kept++
+						}
+					}
+					for i := kept; i < l.ANZBREG; i++ {
+						g.ZTBR[i], g.BREG[i], g.BRKZ[i] = 0, 0, 0
+					}
+					l.ANZBREG = kept
+				}
 				// ! Ernte der 1. Frucht = Düngung Nr. 1 mit Ernterückständen
 				// Harvest of first crop = Fertilization nr. 1 with harvest residue
 				g.ZTDG[0] = g.ERNTE[0]
